@@ -110,9 +110,12 @@ Common(tr, T, ev) ==
     Cl("C02.okbounds", ev.out = "ok",
        \A k \in 1..NLw(tr) : \A i \in 1..Len(post.vol[k]) : post.vol[k][i] <= T.lw[k].maxv \/ post.vol[k][i] = vol[k][i]),
     \* behaviours enumerated by TLC on the bounded model carry the model's own verdict for every step
-    Cl("C04.model", ev.hasmodel,
+    \* (up to and including the first rejected step: what a rejected multi-well call leaves in the wells in front of the
+    \* offending one is not pinned by any property - the model applies them, an implementation may apply none - so the
+    \* volumes are compared for accepted steps only and nothing is compared after a rejection)
+    Cl("C04.model", ev.hasmodel /\ live,
        LET class(o) == IF o \in {"overflow", "underflow", "invalidop", "ok"} THEN o ELSE "rejected" IN
-       class(ev.out) = class(ev.model.out) /\ post.vol = ev.model.vol),
+       class(ev.out) = class(ev.model.out) /\ (ev.out = "ok" => post.vol = ev.model.vol)),
     Cl("C04.frame", TRUE,
        \A k \in (1..NLw(tr)) \ part : post.vol[k] = vol[k] /\ pc[k] = comp[k] /\ post.hn[k] = hn[k]),
     Cl("C05.sane", F.comp /\ cok /\ ev.cs,
